@@ -855,7 +855,23 @@ func (st *inlineState) expand(call *ast.CallExpr, cfd *FuncDecl, depth int, tail
 			}
 			return &ast.AssignStmt{Lhs: lhs, TokPos: pos, Tok: tk, Rhs: rhs}
 		}
-	} else if targets == nil || tok == token.DEFINE || len(targets) != nres {
+	} else if tok == token.DEFINE && len(targets) == nres {
+		// early returns: declare the variables being defined, then assign them at every return
+		nt := make([]ast.Expr, len(targets))
+		for i, t := range targets {
+			nt[i] = t
+			tid, ok := t.(*ast.Ident)
+			if !ok {
+				continue
+			}
+			if tv, ok := st.info.Defs[tid].(*types.Var); ok && tv != nil {
+				spec := &ast.ValueSpec{Names: []*ast.Ident{st.defIdent(tv, call.Pos())}}
+				decl = append(decl, &ast.DeclStmt{Decl: &ast.GenDecl{TokPos: call.Pos(), Tok: token.VAR, Specs: []ast.Spec{spec}}})
+				nt[i] = st.useIdent(tv, call.Pos())
+			}
+		}
+		targets = nt
+	} else if targets == nil || len(targets) != nres {
 		// results go to fresh temporaries (or to the variables being defined, declared first)
 		targets = nil
 		for i := 0; i < nres; i++ {
@@ -1058,17 +1074,11 @@ func (st *inlineState) stmt(s ast.Stmt, depth int) []ast.Stmt {
 							return append(pre, ss...)
 						}
 					} else {
-						if endsWithSingleReturn(cfd.Decl.Body) && hasReturn(cfd.Decl.Body) {
-							// `x, err := h(..)` with a straight-line h: `x, err := e1, e2` in place of its return
-							ss, _, ok := st.expand(call, cfd, depth, false, x.Lhs, token.DEFINE)
-							if ok {
-								return append(pre, ss...)
-							}
-						}
-						ss, res, ok := st.expand(call, cfd, depth, false, nil, token.ILLEGAL)
+						// `x, err := h(..)`: with a straight-line h, `x, err := e1, e2` in place of its
+						// return; otherwise the variables are declared first and every return assigns them
+						ss, _, ok := st.expand(call, cfd, depth, false, x.Lhs, token.DEFINE)
 						if ok {
-							x.Rhs = res
-							return append(append(pre, ss...), x)
+							return append(pre, ss...)
 						}
 					}
 				}
